@@ -215,7 +215,7 @@ def guards(ctx, F):
             # overflow assertions on the counter are discharged by the dominating tests
             for (abb, kind, cond, expected, msg) in p.asserts:
                 c = n(cond)
-                if kind == "overflow" and find_all(c, lambda x: x == ("load", LEN)):
+                if kind == "overflow" and c[0] == "ovf" and ("load", LEN) in (c[2], c[3]):
                     if c == ("ovf", "Sub", ("cpath", room[2][1]) if room[2][0] == "cpath" else room[2], ("load", LEN)) or (c[0] == "ovf" and c[1] == "Sub" and is_maxlen(c[2]) and c[3] == ("load", LEN)):
                         if not (gbb < abb):
                             bad.append("MAX_LEN - len computed before the len >= MAX_LEN test")
